@@ -17,7 +17,11 @@ import time
 VERIF = os.path.dirname(os.path.dirname(os.path.abspath(__file__)))
 REPO = os.environ.get("VERIF_REPO", "/repo")
 SPEC = os.path.join(VERIF, "spec")
-HARNESS = os.path.join(VERIF, "harness")
+HARNESS_SRC = os.path.join(VERIF, "harness")
+WORKROOT_ = os.path.join(VERIF, ".work")
+# checks run against /repo; VERIF_REPO=<scratch worktree> (mutant testing) builds in a private copy of the harness
+HARNESS = HARNESS_SRC if REPO == "/repo" else os.path.join(
+    WORKROOT_, "harness-" + hashlib.sha256(REPO.encode()).hexdigest()[:10])
 EVID = os.path.join(VERIF, "evidence")
 WORKROOT = os.path.join(VERIF, ".work")
 GOENV = dict(GOFLAGS="-mod=mod", GOPROXY="off", GOSUMDB="off", GOTOOLCHAIN="local")
@@ -76,6 +80,10 @@ def run(cmd, cwd=None, env=None, timeout=None, check=True, capture=True):
 def gen_gomod():
     """Harness go.mod is generated from /repo/go.mod (same require/replace),
     plus a replace of the peerswap module by /repo itself."""
+    if HARNESS != HARNESS_SRC:
+        os.makedirs(HARNESS, exist_ok=True)
+        run(["rsync", "-a", "--delete", "--exclude", "bin", "--exclude", "go.mod", "--exclude", "go.sum",
+             HARNESS_SRC + "/", HARNESS + "/"])
     src = open(os.path.join(REPO, "go.mod")).read()
     lines = src.splitlines()
     out = []
@@ -131,6 +139,8 @@ def tlc(module, cfg, wd, workers=None, extra=None, timeout=3600, heap="8g", dequ
     ok, states, distinct, generated, violated (list of invariant/property names), out."""
     meta = os.path.join(wd, "meta-%s-%d" % (os.path.basename(cfg), int(time.time() * 1000) % 100000))
     java = ["java", "-XX:+UseParallelGC", "-Xmx" + heap, "-Xss512m"]
+    if workers == 1:
+        java += ["-XX:ParallelGCThreads=2", "-XX:CICompilerCount=2", "-XX:+UseNUMA"]
     if deque:
         java.append("-Dtlc2.tool.queue.IStateQueue=StateDeque")
     cmd = java + ["-cp", TLC_JAR, "tlc2.TLC", "-metadir", meta, "-config", cfg,
@@ -183,10 +193,12 @@ def spec_copy(wd, extra_files=()):
 # ---------------------------------------------------------- known findings
 
 def load_findings():
-    p = os.path.join(VERIF, "known_findings.json")
-    if not os.path.exists(p):
-        return []
-    return json.load(open(p)).get("findings", [])
+    out = []
+    import glob
+    for p in [os.path.join(VERIF, "known_findings.json")] + sorted(glob.glob(os.path.join(VERIF, "findings", "*.json"))):
+        if os.path.exists(p):
+            out += json.load(open(p)).get("findings", [])
+    return out
 
 
 def match_finding(prop, sig, findings=None):
